@@ -27,6 +27,7 @@ import (
 	"github.com/cnotch/ipchub/av/codec/aac"
 	"github.com/cnotch/ipchub/av/format/hls"
 	"github.com/cnotch/ipchub/av/format/mpegts"
+	"github.com/cnotch/ipchub/utils/murmur"
 )
 
 var commands = map[string]func(Val) Val{}
@@ -299,6 +300,30 @@ func runCase(c Val) Val {
 			}
 		case 6:
 			vm.Sps, vm.Pps = op.At(1).Bytes(), op.At(2).Bytes()
+		case 7:
+			// a new generation of the stream: the running generator and playlist are abandoned as they are (no
+			// Close; their files stay), leftover files appear in the directory, then a new playlist and
+			// generator are created for the same path over the same directory
+			for _, k := range readers {
+				closeReader(k.r)
+			}
+			readers = nil
+			if !mem {
+				for _, lf := range op.At(1).List() {
+					name := fmt.Sprintf("%d_%d.ts", murmur.OfString(path), lf.At(0).Int())
+					if err := ioutil.WriteFile(dir+string(os.PathSeparator)+name, lf.At(1).Bytes(), 0644); err != nil {
+						panic(err)
+					}
+				}
+			}
+			pl = hls.NewPlaylist()
+			sg, err = hls.NewSegmentGenerator(pl, path, frag, dir, rate, nil)
+			if err != nil {
+				panic(err)
+			}
+			vp = mpegts.NewH264Packetizer(vm, sg)
+			ap = mpegts.NewAacPacketizer(&codec.AudioMeta{Codec: "AAC", SampleRate: 44100, Channels: 2, Sps: aac.Encode2BytesASC(2, 4, 2)}, sg)
+			prev = map[int]bool{}
 		default:
 			sg.Close()
 			pl.Close()
